@@ -265,6 +265,35 @@ fn choose(rng: &mut Rng, k: &Knobs, st: St, ctx: &mut Ctx) -> Op {
     }
 }
 
+/// The statement the tick about to be made executes, if it is a bare control transfer (GOSUB / GOTO /
+/// RETURN / NEXT v at the start of a statement of a numbered line): whatever goes wrong in it — no such
+/// line, no frame, no loop, the frame cap — is an error *of that line*.
+fn control_statement_at_entry(s: &Sess, op: &Op) -> Option<u64> {
+    if !matches!(op, Op::Tick) || s.state() != St::Running {
+        return None;
+    }
+    let p = s.probe(false);
+    let line = p.location.0?;
+    let t = p.line_tokens.get(p.location.1)?;
+    if matches!(t.as_str(), "GOSUB" | "GOTO" | "RETURN" | "NEXT") {
+        Some(line)
+    } else {
+        None
+    }
+}
+
+fn error_names_the_statement_line(entry: Option<u64>, call: &Call) -> Option<Violation> {
+    let (Some(l), Some(e)) = (entry, call.err()) else { return None };
+    if e.line != Some(l) {
+        return Some(Violation::new(
+            "C01/error-names-another-line",
+            format!("{} entry line vs error line", e.kind),
+            format!("a control statement of line {l} failed with `{}`, which names line {:?}: the error cannot be rendered as the offending source line", e.text, e.line),
+        ));
+    }
+    None
+}
+
 fn is_dangerous(op: &Op) -> bool {
     match op {
         Op::Line(t) | Op::Reply(t) => t.len() > 600,
@@ -620,10 +649,15 @@ impl Prop for C01 {
                 ctx.announce(&Case { ops: ops.clone() });
             }
             count_fault(&op, before, &s, ctx, &mut m);
+            let entry = control_statement_at_entry(&s, &op);
             let Some(call) = s.apply(&op) else { continue };
             ctx.calls(1);
             if call.err().is_some() {
                 ctx.count("reach.error_returned");
+            }
+            if let Some(v) = error_names_the_statement_line(entry, &call) {
+                violation = Some(v);
+                break;
             }
             if call.state == St::Awaiting {
                 ctx.count("reach.awaiting_input");
@@ -670,8 +704,12 @@ impl Prop for C01 {
         let mut m = Monitor::new();
         for op in &case.ops {
             let before = s.state();
+            let entry = control_statement_at_entry(&s, op);
             let Some(call) = s.apply(op) else { continue };
             ctx.calls(1);
+            if let Some(v) = error_names_the_statement_line(entry, &call) {
+                return Some(v);
+            }
             if let Some(v) = m.check(op, before, &call) {
                 return Some(v);
             }
